@@ -37,6 +37,56 @@ theorem node_tx_with_hex (tx : Tx) (h : tx.wf) (hamb : ¬ tx.ambiguous) (v lt : 
 theorem amounts_round_trip (n : Nat) (hn : n ≤ 2100000000000000) : decodeAmount (encodeAmount n) = n :=
   C16F.amount_round_trip n hn
 
+/-- node-style marshalling of an output / an input / a transaction without the `hex` field (what a node's own JSON looks
+    like to the decoder) -/
+def outToNode (o : Output) : NodeOut := { value := encodeAmount o.sats, scriptPubKey := some (.ok o.script) }
+def inToNode (i : Input) : NodeIn :=
+  { scriptSig := some (.ok (i.unlocking.getD [])), txid := .ok i.prevTxID, vout := i.vout, sequence := i.sequence }
+def txToNodeFields (tx : Tx) : NodeTx :=
+  { version := tx.version, lockTime := tx.lockTime, hex := none,
+    vin := tx.inputs.map fun i => some (inToNode i), vout := tx.outputs.map fun o => some (outToNode o) }
+
+/-- An output (and a UTXO) marshalled to node-style JSON and unmarshalled field by field — amount through float64,
+    script through hex — is the same output, for every amount up to the 21-million-coin cap. -/
+theorem node_output_roundtrip (o : Output) (h : o.sats ≤ 2100000000000000) :
+    nodeOutToOutput (some (outToNode o)) = .ok o := by
+  simp [nodeOutToOutput, outToNode, amounts_round_trip o.sats h]
+
+theorem node_utxo_roundtrip (txid spk : Bytes) (vout sats : Nat) (h : sats ≤ 2100000000000000) :
+    nodeUtxo (.ok txid) (.ok spk) vout (encodeAmount sats) = .ok (txid, vout, spk, sats) := by
+  simp [nodeUtxo, amounts_round_trip sats h]
+
+theorem mapM_outs (outs : List Output) (h : ∀ o ∈ outs, o.sats ≤ 2100000000000000) :
+    (outs.map fun o => some (outToNode o)).mapM nodeOutToOutput = .ok outs := by
+  induction outs with
+  | nil => rfl
+  | cons o os ih =>
+    simp only [List.map_cons, List.mapM_cons, node_output_roundtrip o (h o (by simp)),
+      ih (fun x hx => h x (by simp [hx]))]
+    rfl
+
+theorem mapM_ins (ins : List Input) (h : ∀ i ∈ ins, i.prevTxID.length = 32) :
+    (ins.map fun i => some (inToNode i)).mapM nodeInToInput = .ok (ins.map (Input.norm false)) := by
+  induction ins with
+  | nil => rfl
+  | cons i is ih =>
+    have hi : nodeInToInput (some (inToNode i)) = .ok (i.norm false) := by
+      simp [nodeInToInput, inToNode, h i (by simp), Input.norm, Input.normStd]
+    simp only [List.map_cons, List.mapM_cons, hi, ih (fun x hx => h x (by simp [hx]))]
+    rfl
+
+/-- The field-by-field path of the node-style transaction decoder (no `hex` field): version, lock time, every input's
+    outpoint, unlocking script and sequence number and every output's script and amount come back — the decoded
+    transaction is the standard-format normal form of the original, hence has the identical serialisation and id
+    (`C01.reserialize_std`). -/
+theorem node_tx_fieldwise_roundtrip (tx : Tx) (hin : ∀ i ∈ tx.inputs, i.prevTxID.length = 32)
+    (hout : ∀ o ∈ tx.outputs, o.sats ≤ 2100000000000000) :
+    nodeTxToTx (txToNodeFields tx) = .ok (tx.norm false) ∧
+    serialize false (tx.norm false) = serialize false tx := by
+  refine ⟨?_, C01.reserialize_std tx⟩
+  simp only [nodeTxToTx, txToNodeFields, mapM_outs tx.outputs hout, mapM_ins tx.inputs hin, bind, Except.bind, pure,
+    Except.pure, Tx.norm]
+
 /-- Why truncation was wrong: 0.29 BSV (29,000,000 satoshis) came back as 28,999,999, and 3 satoshis as 2.
     (The replay of the defect repaired in go-bt; kept as a machine-checked counterexample.) -/
 theorem truncation_counterexample :
